@@ -44,10 +44,10 @@ Import ListNotations.
 Open Scope string_scope.
 Open Scope list_scope.
 
-Inductive sres (X : Type) := SOk (x : X) | SErr (msg : string).
+Inductive shres (X : Type) := SOk (x : X) | SErr (msg : string).
 Arguments SOk {X} x.
 Arguments SErr {X} msg.
-Definition sbind {X Y} (r : sres X) (f : X -> sres Y) : sres Y :=
+Definition sbind {X Y} (r : shres X) (f : X -> shres Y) : shres Y :=
   match r with SOk x => f x | SErr m => SErr m end.
 Notation "'dos' x <- e ; k" := (sbind e (fun x => k)) (at level 200, x pattern, e at level 100, k at level 200).
 
@@ -285,40 +285,59 @@ Fixpoint fresh_env (bs : ctx) (st : sst) : ctx * sst :=
   end.
 
 (* the xtors of the type that is eta-expanded, and which side is kept / expanded *)
-Definition xtors_of (E : senv) (ty : cty) (name : cident) : sres (list (cident * cctx)) :=
+Definition xtors_of (E : senv) (ty : cty) (name : cident) : shres (list (cident * cctx)) :=
   match lookup_type_declaration name (if is_codata (e_codata E) ty then e_codata E else e_data E) with
   | Some d => SOk (map (fun x => (cxname x, cxargs x)) (ctxtors d))
   | None => SErr ("Type " ++ fst name ++ " not found")
   end.
 
 (* ---------- cut.rs: shrink_unknown_cuts ---------- *)
-Definition shrink_unknown_cuts (E : senv) (var_prd var_cns : cident) (ty : cty) (st : sst) : sres (stmt * sst) :=
+(* the clauses of the eta-expansion: per xtor fresh parameters, the body invokes the xtor on the
+   expanded (co)variable *)
+Fixpoint unknown_clauses (codata : list ctydecl) (var_expand : cident) (translated_ty : ty)
+         (xs : list (cident * cctx)) (st : sst) : list clause * sst :=
+  match xs with
+  | [] => ([], st)
+  | (xtor, args) :: r =>
+      let '(env, st1) := fresh_env (shrink_context codata args) st in
+      let '(r', st2) := unknown_clauses codata var_expand translated_ty r st1 in
+      ((shrink_identifier xtor, env,
+        Invoke (shrink_identifier var_expand) (shrink_identifier xtor) translated_ty env) :: r', st2)
+  end.
+Definition shrink_unknown_cuts (E : senv) (var_prd var_cns : cident) (ty : cty) (st : sst) : shres (stmt * sst) :=
   match ty with
   | CI64 => SOk (invoke_ret var_cns var_prd, st)
   | CDecl name =>
       dos xtors <- xtors_of E ty name;
       let '(var_keep, var_expand) := if is_codata (e_codata E) ty then (var_cns, var_prd) else (var_prd, var_cns) in
       let translated_ty := shrink_ty ty in
-      let '(clauses, st') :=
-        (fix go (xs : list (cident * cctx)) (st : sst) : list clause * sst :=
-           match xs with
-           | [] => ([], st)
-           | (xtor, args) :: r =>
-               let '(env, st1) := fresh_env (shrink_context (e_codata E) args) st in
-               let '(r', st2) := go r st1 in
-               ((shrink_identifier xtor, env,
-                 Invoke (shrink_identifier var_expand) (shrink_identifier xtor) translated_ty env) :: r', st2)
-           end) xtors st in
+      let '(clauses, st') := unknown_clauses (e_codata E) var_expand translated_ty xtors st in
       SOk (Switch (shrink_identifier var_keep) translated_ty clauses, st')
+  end.
+
+(* the clauses of the eta-expansion of a critical pair: per xtor fresh parameters, then a fresh
+   variable for the expanded binder; the body binds the xtor and continues with (a copy of) the
+   shrunk expanded side in which the expanded binder is renamed to the fresh variable *)
+Fixpoint critical_clauses (codata : list ctydecl) (var_expand : cident) (translated_ty : ty)
+         (shrunk_statement_expand : stmt) (xs : list (cident * cctx)) (st : sst) : list clause * sst :=
+  match xs with
+  | [] => ([], st)
+  | (xtor, args) :: r =>
+      let '(env, sta) := fresh_env (shrink_context codata args) st in
+      let '(var, stb) := fresh_identifier sta (fst var_expand) in
+      let next := ax_subst [(cid_id var_expand, shrink_identifier var)] shrunk_statement_expand in
+      let '(r', stc) := critical_clauses codata var_expand translated_ty shrunk_statement_expand r stb in
+      ((shrink_identifier xtor, env,
+        Let (shrink_identifier var) translated_ty (shrink_identifier xtor) env next) :: r', stc)
   end.
 
 Section Open.
 (* the recursive call `.shrink(state)` on statements (open recursion; closed by fuel below) *)
-Variable rec : fsstmt -> sst -> sres (stmt * sst).
+Variable rec : fsstmt -> sst -> shres (stmt * sst).
 Variable E : senv.
 
 (* impl Shrinking for Vec<Clause>: in order *)
-Fixpoint shrink_clauses (cls : list fsclause) (st : sst) : sres (list clause * sst) :=
+Fixpoint shrink_clauses (cls : list fsclause) (st : sst) : shres (list clause * sst) :=
   match cls with
   | [] => SOk ([], st)
   | FsClause _ x ctx body :: r =>
@@ -328,7 +347,7 @@ Fixpoint shrink_clauses (cls : list fsclause) (st : sst) : sres (list clause * s
   end.
 
 (* shrink_renaming *)
-Definition shrink_renaming (var : cident) (var_mu : N) (statement : fsstmt) (st : sst) : sres (stmt * sst) :=
+Definition shrink_renaming (var : cident) (var_mu : N) (statement : fsstmt) (st : sst) : shres (stmt * sst) :=
   rec (subst_stmt [(var_mu, var)] statement) st.
 
 (* shrink_known_cuts *)
@@ -336,7 +355,7 @@ Definition clause_xtor (c : fsclause) : cident := match c with FsClause _ x _ _ 
 Definition clause_ctx (c : fsclause) : cctx := match c with FsClause _ _ ctx _ => ctx end.
 Definition clause_body (c : fsclause) : fsstmt := match c with FsClause _ _ _ b => b end.
 Definition shrink_known_cuts (xtor : cident) (args : list cident) (clauses : list fsclause) (st : sst)
-  : sres (stmt * sst) :=
+  : shres (stmt * sst) :=
   match find (fun c => cident_eqb (clause_xtor c) xtor) clauses with
   | None => SErr ("Xtor " ++ fst xtor ++ " not found in clauses")
   | Some c =>
@@ -353,7 +372,7 @@ Fixpoint lift_params (fvs : list cbinding) (st : sst) : (cctx * csubst) * sst :=
       let '((cx, sub), st2) := lift_params r st1 in
       ((mkcb v (cbchi b) (cbty b) :: cx, (cid_id (cbvar b), v) :: sub), st2)
   end.
-Definition lift (statement : fsstmt) (st : sst) : sres (stmt * sst) :=
+Definition lift (statement : fsstmt) (st : sst) : shres (stmt * sst) :=
   let fvs := typed_free_vars statement in
   let '((context, sub), st1) := lift_params fvs st in
   let '(label, st2) := fresh_identifier st1 ("lift_" ++ e_label E ++ "_") in
@@ -373,7 +392,7 @@ Definition is_leaf_statement (s : fsstmt) : bool :=
 
 (* shrink_critical_pairs *)
 Definition shrink_critical_pairs (var_prd : cident) (statement_prd : fsstmt) (var_cns : cident)
-           (statement_cns : fsstmt) (ty : cty) (st : sst) : sres (stmt * sst) :=
+           (statement_cns : fsstmt) (ty : cty) (st : sst) : shres (stmt * sst) :=
   match ty with
   | CI64 =>
       dos (body, st1) <- rec statement_cns st;
@@ -392,23 +411,13 @@ Definition shrink_critical_pairs (var_prd : cident) (statement_prd : fsstmt) (va
          then rec statement_expand st
          else lift statement_expand st);
       let '(clauses, st2) :=
-        (fix go (xs : list (cident * cctx)) (st : sst) : list clause * sst :=
-           match xs with
-           | [] => ([], st)
-           | (xtor, args) :: r =>
-               let '(env, sta) := fresh_env (shrink_context (e_codata E) args) st in
-               let '(var, stb) := fresh_identifier sta (fst var_expand) in
-               let next := ax_subst [(cid_id var_expand, shrink_identifier var)] shrunk_statement_expand in
-               let '(r', stc) := go r stb in
-               ((shrink_identifier xtor, env,
-                 Let (shrink_identifier var) translated_ty (shrink_identifier xtor) env next) :: r', stc)
-           end) xtors st1 in
+        critical_clauses (e_codata E) var_expand translated_ty shrunk_statement_expand xtors st1 in
       dos (next, st3) <- rec statement_keep st2;
       SOk (Create (shrink_identifier var_keep) (Decl (shrink_identifier name)) None clauses next, st3)
   end.
 
 (* impl Shrinking for FsCut *)
-Definition shrink_cut (p : fsterm) (ty : cty) (c : fsterm) (st : sst) : sres (stmt * sst) :=
+Definition shrink_cut (p : fsterm) (ty : cty) (c : fsterm) (st : sst) : shres (stmt * sst) :=
   match p, c with
   (* renaming *)
   | FsMu _ variable statement _, FsXVar _ var _
@@ -461,7 +470,7 @@ Definition shrink_cut (p : fsterm) (ty : cty) (c : fsterm) (st : sst) : sres (st
   end.
 
 (* impl Shrinking for FsStatement (statements/{mod,ifc,print,call,exit}.rs) *)
-Definition shrink_step (s : fsstmt) (st : sst) : sres (stmt * sst) :=
+Definition shrink_step (s : fsstmt) (st : sst) : shres (stmt * sst) :=
   match s with
   | FsCut p ty c => shrink_cut p ty c st
   | FsIfC so a b t e =>
@@ -476,28 +485,28 @@ Definition shrink_step (s : fsstmt) (st : sst) : sres (stmt * sst) :=
   end.
 End Open.
 
-Fixpoint shrink_stmt (fuel : nat) (E : senv) (s : fsstmt) (st : sst) {struct fuel} : sres (stmt * sst) :=
+Fixpoint shrink_stmt (fuel : nat) (E : senv) (s : fsstmt) (st : sst) {struct fuel} : shres (stmt * sst) :=
   match fuel with
   | O => SErr "out of fuel"
   | S fuel => shrink_step (shrink_stmt fuel E) E s st
   end.
 
 (* ---------- def.rs: shrink_def: the definition followed by its lifted statements, most recent first ---------- *)
-Definition shrink_def (d : fsdef) (data codata : list ctydecl) (max_id : N) : sres (list def * N) :=
+Definition shrink_def (d : fsdef) (data codata : list ctydecl) (max_id : N) : shres (list def * N) :=
   let E := mksenv data codata (fst (fsdname d)) in
   dos (body, st) <- shrink_stmt (fsz (fsdbody d)) E (fsdbody d) (mksst max_id []);
   SOk (mkd (shrink_identifier (fsdname d)) (shrink_context codata (fsdctx d)) body :: s_lifted st, s_max st).
 
 (* ---------- program.rs: shrink_prog ---------- *)
 Fixpoint shrink_defs (ds : list fsdef) (data codata : list ctydecl) (max_id : N) (acc : list def)
-  : sres (list def * N) :=
+  : shres (list def * N) :=
   match ds with
   | [] => SOk (frev acc, max_id)
   | d :: r =>
       dos (out, m) <- shrink_def d data codata max_id;
       shrink_defs r data codata m (rev_append out acc)
   end.
-Definition shrink_prog (p : fsprog) : sres prog :=
+Definition shrink_prog (p : fsprog) : shres prog :=
   if existsb (fun t => cident_eqb (ctname t) cont_name) (fspdata p)
      || existsb (fun t => cident_eqb (ctname t) cont_name) (fspcodata p)
   then SErr "_Cont cannot be used as a type name"
